@@ -15,7 +15,7 @@ CLAIMED.update({
  "C01": dict(technique="TLA+ Session/PartitionTree spec: TLC trace validation of ask/tell sessions over the configuration matrix (rank-coded coordinates) + TLC invariant AllInsideRoot on lattice models",
              text="The Session trace spec has no action for an exception, a hang, a non-point or a point outside the user's box; TLC validates every event of several hundred sessions spanning all 14 algorithms (and wrappers over each base learner) x all partition classes x dimensions x boxes x parameter draws x reward patterns, and model-checks that every cell any partition can create lies inside the root box.",
              note="Sampled configurations, not all; coordinates are rank coded so the box test is exact for the floats.  A call that does not return within 30 s counts as a hang.  Known findings F7, F9, F11 (known_findings.json).", ref="5/C01"),
- "C09": dict(technique="TLA+ spec GPO.tla model-checked with TLC for a grid of (N, half) + TLC trace validation of GPO/PCT/VPCT sessions observed through a recording base-learner subclass",
+ "C09": dict(technique="TLA+ spec GPO.tla model-checked with TLC for a grid of (N, half) + inductive invariant of the schedule's counter abstraction (APA_GPO.tla, N and H symbolic) discharged by Apalache + TLC trace validation of GPO/PCT/VPCT sessions observed through a recording base-learner subclass",
              text="The published schedule is a small reward-independent counter machine: TLC explores it exhaustively per (N, half) with the C09 statements as invariants, and Trace_Wrap requires the learner constructions/pulls/rewards observed during every public call of the real classes to equal those predicted by the same Pull/Receive operators, rho_i to match the 60-digit table, scores to equal the exact mean of the validation rewards.",
              note="N, half and the rho grid come from harness/consts.py (decimal arithmetic, published formula); half >= 1.  Scores compared at 2^-16.", ref="5/C09"),
  "C10": dict(technique="TLA+ spec POO.tla model-checked with TLC under every threshold oracle (incl. the coded running mean as exact rationals) + TLC trace validation of POO sessions observed through a recording base-learner subclass",
